@@ -280,6 +280,14 @@ pub fn node(cfg: &CssCfg, depth: u32) -> BoxedStrategy<Node> {
                 (pick(PROPS), proptest::collection::vec(value_tok(pcfg, 1), 1..3)).prop_map(|(p, v)| vec![SupportsCond::Decl(p, v)]),
                 proptest::collection::vec(complex(cfg, 1), 1..2).prop_map(|s| vec![SupportsCond::Selector(s)]),
                 (pick(PROPS), numeric(cfg), pick(PROPS), numeric(cfg)).prop_map(|(p, v, q, w)| vec![SupportsCond::Decl(p, vec![v]), SupportsCond::And, SupportsCond::Decl(q, vec![w])]),
+                // selector() tests inside parenthesised sub-conditions, negated, combined
+                (proptest::collection::vec(complex(cfg, 1), 1..2), proptest::collection::vec(complex(cfg, 0), 1..2), 0u8..5).prop_map(|(a, b, shape)| match shape {
+                    0 => vec![SupportsCond::Paren(vec![SupportsCond::Selector(a)])],
+                    1 => vec![SupportsCond::Not, SupportsCond::Selector(a)],
+                    2 => vec![SupportsCond::Paren(vec![SupportsCond::Not, SupportsCond::Selector(a)])],
+                    3 => vec![SupportsCond::Paren(vec![SupportsCond::Paren(vec![SupportsCond::Selector(a)]), SupportsCond::Or, SupportsCond::Paren(vec![SupportsCond::Selector(b)])])],
+                    _ => vec![SupportsCond::Paren(vec![SupportsCond::Selector(a)]), SupportsCond::And, SupportsCond::Selector(b)],
+                }),
             ].prop_map(|c| ("supports".to_string(), Prelude::Supports(c))),
             2 => proptest::collection::vec(pick(PLAIN_CLASS_NAMES), 0..3).prop_map(|p| ("layer".to_string(), if p.is_empty() { Prelude::None } else { Prelude::LayerName(p) })),
             2 => (proptest::option::of(pick(PLAIN_CLASS_NAMES)), media_cond(cfg, 0)).prop_map(|(n, c)| ("container".to_string(), Prelude::Container(n, c))),
